@@ -98,7 +98,7 @@ def full_leaves():
     ints = [0]
     for v in (1, 63, 64, 8191, 8192, 2 ** 62, 2 ** 4096):
         ints += [v, -v]
-    out = [{'int': str(v)} for v in ints] + [{'int': '-0'}, {'int': '007'}, {'int': '+1'}]
+    out = [{'int': R.dec_of(v)} for v in ints] + [{'int': '-0'}, {'int': '007'}, {'int': '+1'}]
     out += [{'string': ''}, {'string': 'a'}, {'string': 'é'}, {'string': 'x' * BIG}]
     out += [{'bytes': ''}, {'bytes': '00'}, {'bytes': 'ff' * BIG}]
     for p in EDGE_PRIMS:
@@ -382,6 +382,20 @@ def check_expr(e):
         same = False
     if not same:
         out.append(('round trip returns a different expression', f'{dumps(e):.300} -> {got.hex():.200} -> {back!r:.300}'))
+    else:
+        # the decoded tree belongs to the caller: editing it must not change what the same bytes decode to next time
+        try:
+            if isinstance(back, list):
+                back.append({'int': '424242'})
+            elif isinstance(back, dict):
+                back['prim' if 'prim' in back else next(iter(back))] = 'EDITED_BY_CALLER'
+                back.setdefault('args', []).append({'int': '424242'})
+            again = unforge_micheline(got)
+            if R.normalize(again) != R.normalize(e):
+                out.append(('decoding the same bytes again returns a tree that reflects the caller\'s edits to the first result',
+                            f'{dumps(e):.300}: second decode {again!r:.300}'))
+        except Exception as ex:
+            out.append(('second decode of the same bytes raises', f'{dumps(e):.300}: {type(ex).__name__}: {ex}'))
     return exp, out
 
 
@@ -464,29 +478,30 @@ def run_bytes(r: Result, m, how, origin=None):
 
 def check_int(n):
     """forge_int / unforge_int / forge_nat against the reference; non-minimal spellings through unforge_micheline."""
+    ns = R.dec_of(n)[:120]   # never format n itself: the interpreter's int->str digit limit is a process-global the code under test may touch
     from pytezos.michelson.forge import forge_int, forge_nat, unforge_int
     out = []
     exp = R.enc_zint(n)
     try:
         got = forge_int(n)
         if got != exp:
-            out.append(('forge_int differs from the reference', f'n={n}: {got.hex():.100} vs {exp.hex():.100}'))
+            out.append(('forge_int differs from the reference', f'n={ns}: {got.hex():.100} vs {exp.hex():.100}'))
         back = unforge_int(got + b'\x99')  # the decoder must stop at the end of the number
         if tuple(back) != (n, len(exp)):
-            out.append(('unforge_int(forge_int(n)) != (n, length)', f'n={n}: {back!r:.200}'))
+            out.append(('unforge_int(forge_int(n)) != (n, length)', f'n={ns}: {back!r:.200}'))
     except Exception as ex:
-        out.append(('forge_int / unforge_int raises on an integer', f'n={n}: {type(ex).__name__}: {ex}'))
+        out.append(('forge_int / unforge_int raises on an integer', f'n={ns}: {type(ex).__name__}: {ex}'))
     if n >= 0:
         try:
             g = forge_nat(n)
             if g != R.enc_nat(n):
-                out.append(('forge_nat differs from the reference', f'n={n}: {g.hex():.100} vs {R.enc_nat(n).hex():.100}'))
+                out.append(('forge_nat differs from the reference', f'n={ns}: {g.hex():.100} vs {R.enc_nat(n).hex():.100}'))
         except Exception as ex:
-            out.append(('forge_nat raises on a natural number', f'n={n}: {type(ex).__name__}: {ex}'))
+            out.append(('forge_nat raises on a natural number', f'n={ns}: {type(ex).__name__}: {ex}'))
     else:
         try:
             g = forge_nat(n)
-            out.append(('forge_nat encodes a negative number', f'n={n}: {g.hex():.100}'))
+            out.append(('forge_nat encodes a negative number', f'n={ns}: {g.hex():.100}'))
         except Exception:
             pass
     return out
@@ -498,10 +513,10 @@ def run_int(r: Result, n):
     if len(R.enc_zint(n)) > 1:
         r.nt(('int', n))
     r.out('int|codec|' + ('ok' if not vs else 'FAIL'))
-    case = {'k': 'int', 'n': str(n)}
+    case = {'k': 'int', 'n': R.dec_of(n)}
     for d, detail in vs:
         r.viol(d, case, detail)
-    e = {'int': str(n)}
+    e = {'int': R.dec_of(n)}
     for groups in (1, 2):
         run_bytes(r, b'\x00' + pad_zint(n, groups), 'nonmin', e)
     return case
